@@ -74,33 +74,33 @@ type call struct {
 }
 
 type server struct {
-	name      string
-	disk      *Disk
-	ep        int
-	up        bool
-	everUp    bool
-	maxTerm   uint64 // largest term ever reported through hooks / start
-	state     int
-	stream    *stream
-	commit    uint64 // last commit index written in this epoch
-	applied   uint64
-	notes     []bool
-	lch       []bool
-	enters    int
-	exits     int
-	shutdown  bool // Shutdown() called on the current incarnation
-	pendVoteT uint64
-	havePendV bool
-	pendVoteC string
-	havePendC bool
-	sinceSnapClose bool
-	truncSinceCreate bool
-	burned    uint64
-	lastStartSeq uint64
-	trailing  uint64
+	name                    string
+	disk                    *Disk
+	ep                      int
+	up                      bool
+	everUp                  bool
+	maxTerm                 uint64 // largest term ever reported through hooks / start
+	state                   int
+	stream                  *stream
+	commit                  uint64 // last commit index written in this epoch
+	applied                 uint64
+	notes                   []bool
+	lch                     []bool
+	enters                  int
+	exits                   int
+	shutdown                bool // Shutdown() called on the current incarnation
+	pendVoteT               uint64
+	havePendV               bool
+	pendVoteC               string
+	havePendC               bool
+	sinceSnapClose          bool
+	truncSinceCreate        bool
+	burned                  uint64
+	lastStartSeq            uint64
+	trailing                uint64
 	startTerm, startMaxTerm uint64 // durable term / largest reported term when the current incarnation was created
-	installedMax uint64 // largest index of a snapshot this server installed from a leader
-	electNotCandTerm uint64 // term of an election this server started while its state was not Candidate
+	installedMax            uint64 // largest index of a snapshot this server installed from a leader
+	electNotCandTerm        uint64 // term of an election this server started while its state was not Candidate
 }
 
 type leaderRec struct {
@@ -111,10 +111,10 @@ type leaderRec struct {
 	endT  int64
 	ended bool
 	// C13: since when this leader cannot reach a voter majority
-	lost             bool
-	lostAt           int64
-	lostSeq          uint64
-	lostN, lostTot   int
+	lost           bool
+	lostAt         int64
+	lostSeq        uint64
+	lostN, lostTot int
 	// the leader loop (and with it the lease check) only starts after the NotifyCh
 	// consumer has taken the notification: raft documents that it blocks on that channel
 	active  bool
@@ -145,28 +145,28 @@ type checker struct {
 	calls    map[uint64]*call
 	callList []*call
 
-	stored  map[string]bool // every payload ever stored on any disk
-	appliedP map[string]bool
-	applyGaps []gapRec
-	userRestores []userRestore
-	params  sim.Ev
-	initCfg Config
+	stored                 map[string]bool // every payload ever stored on any disk
+	appliedP               map[string]bool
+	applyGaps              []gapRec
+	userRestores           []userRestore
+	params                 sim.Ev
+	initCfg                Config
 	electMs, leaseMs, hbMs int64
-	trailing uint64
-	monotonic bool
+	trailing               uint64
+	monotonic              bool
 
 	tailBegin, tailQuiet, tailProbe, tailEnd uint64
-	tailQuietT int64
-	finalReads []sim.Ev
-	installs map[string]int
-	spin     []sim.Ev
-	probeIdx uint64
-	probeOK  bool
+	tailQuietT                               int64
+	finalReads                               []sim.Ev
+	installs                                 map[string]int
+	spin                                     []sim.Ev
+	probeIdx                                 uint64
+	probeOK                                  bool
 
-	timeoutNow map[string]uint64 // server -> seq of a TimeoutNow delivered since its last state change
-	snapsPending []snapCheck
+	timeoutNow    map[string]uint64 // server -> seq of a TimeoutNow delivered since its last state change
+	snapsPending  []snapCheck
 	restoreChecks []restoreCheck
-	ext extState
+	ext           extState
 }
 
 type gapRec struct {
@@ -183,13 +183,13 @@ type userRestore struct {
 }
 
 type snapCheck struct {
-	key     instKey
+	key         instKey
 	index, term uint64
-	cfg     string
-	cfgIdx  uint64
-	content string
-	seq     uint64
-	local   bool
+	cfg         string
+	cfgIdx      uint64
+	content     string
+	seq         uint64
+	local       bool
 }
 
 type restoreCheck struct {
